@@ -131,8 +131,8 @@ def replay_layout(d):
     fcp = _fcp(d)
     impl = [i for i in fcp.impls if i.protocol == "can"][0]
     enc = make_encoder("packed", fcp, PackedEncoderContext().with_unroll_arrays(d["unroll"]))
-    enc.bitstart = d.get("pre_bitstart", 0)
-    enc.encoding = [Value("stale_piece_of_an_earlier_generate", UnsignedType("u8"), 0, 8)]
+    from .checks.layout_checks import _set_pre_state
+    _set_pre_state(enc, d.get("pre_bitstart", 0), [Value("stale_piece_of_an_earlier_generate", UnsignedType("u8"), 0, 8)])
     try:
         out = enc.generate(impl)
     except Exception as e:
@@ -475,6 +475,9 @@ def replay_reflection(d):
         from .prime import prime
         prime(rc.COLLIDING, ("serde", "layout"))
     fcp = _fcp_text(rc.TEMPLATES[d["template"]])
+    declared = rc.declared_of(fcp)
+    if d.get("_primed"):
+        rc.same_object_history(fcp)
     rc.Patcher(asg=asg).patch(fcp)
     rfcp = get_reflection_schema().unwrap()
     rsch = schema_from_fcp(rfcp, top="Fcp")
@@ -484,7 +487,7 @@ def replay_reflection(d):
         rec = fcp.reflection()
     except Exception as e:
         return True, f"reflection() raised {type(e).__name__}: {e}"
-    exp = rc.reference_record(fcp)
+    exp = rc.reference_record(fcp, declared)
     if not values_equal(rsch, T, rec, exp):
         return True, f"reflection record differs from the declared schema: {_first_diff(rec, exp)}"
     try:
